@@ -138,6 +138,42 @@ PROPS.update({
                "checks the bound after each single diff of both stream flavours."),
         technique="Lean 4 proof (bounded-run predicate by case analysis and induction over replicate/map runs) + model/implementation correspondence",
         design_ref="DESIGN.md §6 C15"),
+    "C11": dict(adp_prop(["EyeballVerif.Props.C11", "EyeballVerif.Lemmas.Bsearch"],
+        "bsearch_spec (imbl's binary_search_by loop meets its specification on a list ordered w.r.t. the probe); sort_insertAt_emits / sort_removeAt_emits (the three-way emission of the "
+        "PushFront/PushBack/Insert and PopFront/PopBack/Remove arms turns the old sorted view into the new one); sort_truncate_counterexample (known finding D4: kernel-checked refutation of the full statement)"),
+        claim=("Lean 4: the full per-diff refinement statement sort_handle_full (SInv: the buffered vector is the source tagged with positions, sorted) is REFUTED in the kernel for the Truncate arm "
+               "(sort_truncate_counterexample — known finding D4, not repairable without changing three pinned tests); proved so far: imbl's binary search loop meets its specification for every probe "
+               "and list (bsearch_spec, unbounded, by strong induction) and the insertion/removal emission lemmas for every buffer and position. The remaining arms are tied to the code by the exhaustive "
+               "differential run (every source over an alphabet with ties x 4 comparators x every operation) and the implementation-side sorted-permutation oracle; partial."),
+        technique="Lean 4 proof (partial: binary-search spec, emission lemmas, kernel-checked counterexample for the known finding) + model/implementation correspondence",
+        design_ref="DESIGN.md §6 C11"),
+    "C12": dict(adp_prop(["EyeballVerif.Props.C12"],
+        "c12_initial_values / c12_initial_chain: for every stage kind, initial contents and chain of any length, the initial values handed on are the composition of the stage views (the repaired D5); "
+        "c12_stage_buffers_view_below: every stage starts with the invariant its rewriting theorem needs"),
+        claim=("Lean 4 theorems c12_initial_values and c12_initial_chain: for every kind of stage and chains of any length (induction over the chain) the initial values a stage hands to the next one "
+               "are its view of the stage below — in particular empty for the purely dynamic Head/Tail/Skip (repaired defect D5) — and every stage starts with the buffer/bookkeeping invariant that the per-stage "
+               "refinement theorems of C09/C10 assume. The per-stage theorems compose because each stage's output diffs are strictly applicable to its own view (C09/C10 theorems). Tied to the code by "
+               "random chains of up to 3 stages with transparent taps between the stages checked at every quiescent point."),
+        technique="Lean 4 proof (induction over the chain, per-stage refinement theorems) + model/implementation correspondence with per-stage taps",
+        design_ref="DESIGN.md §6 C12"),
+    "C13": dict(adp_prop(["EyeballVerif.Props.C13"],
+        "c13_no_empty_batch: for chains of any length, any fuel and world, polling never yields an empty batch given the vector never publishes an empty message (pollStages_item principle, induction over "
+        "the poll loop); c13_mapDiffs_append / c13_mapDiffs_acc: the Vec container's flat_map over a batch = handling its diffs one after the other"),
+        claim=("Lean 4 theorems: no stage, alone or in a chain of any length, ever emits an empty batch (c13_no_empty_batch, by induction over the poll loop of the generic stage skeleton, using that commits "
+               "never publish empty messages); handling a batch in one go produces exactly the concatenation, in order, of handling its diffs one at a time, with the same buffered state "
+               "(c13_mapDiffs_append, c13_mapDiffs_acc) — the algebraic core of 'batched = unbatched, concatenated'. Tied to the code by running every exhaustive case in both flavours and comparing the "
+               "flattened streams, plus the boundary-state oracle after every emitted batch."),
+        technique="Lean 4 proof (induction over the poll loop, algebraic law of the container fold) + model/implementation correspondence in both flavours",
+        design_ref="DESIGN.md §6 C13"),
+    "C14": dict(adp_prop(["EyeballVerif.Props.C14"],
+        "c14_send_wakes / c14_direct_wakes / c14_limit_wakes: each kind of event wakes exactly what is registered; c14_limPoll_registers / c14_sub_pending_parked: a Pending source has registered the waker",
+        engines=[{"name": "adp"}, {"name": "vec"}]),
+        claim=("Lean 4 theorems (first tier): every event that can make progress possible — a published update, the drop of the vector (c08_drop_wakes), a new limit/count value, the end of the limit stream — "
+               "wakes exactly the wakers registered with that source (c14_send_wakes, c14_direct_wakes, c14_limit_wakes); a source that answered Pending has registered the waker (c14_sub_pending_parked, "
+               "c14_limPoll_registers). Tied to the code by flag wakers checked around every poll and after every single operation for single adapters and chains (adp engine) and for the subscriber streams (vec engine). "
+               "tokio's and the limit stream's registration behaviour are assumptions of the model, validated by these runs."),
+        technique="Lean 4 proof (registration/wake lemmas per source) + model/implementation correspondence with flag wakers after every operation",
+        design_ref="DESIGN.md §6 C14"),
 })
 
 ENGINES = [
